@@ -779,6 +779,62 @@ func runSchedule(t *testing.T, o *hx.Out, sc *schedule, async bool) {
 
 // ---------------------------------------------------------------------------------------------
 
+// acceptedSocketError (C13, "a blocked Read returns when the socket reports an error", accepted
+// sessions): an accepted session has no read loop of its own, it learns about a dead socket from the
+// listener's monitor loop — also when the listener itself was closed before the socket failed
+// (ServeConn: Close leaves the socket to its owner).  Its own bubble; no op lines (the monitor loop
+// is not part of the wait model), verdict on the implementation side only.
+func acceptedSocketError(t *testing.T, o *hx.Out, closeListenerFirst, blockedWrite bool) {
+	name := fmt.Sprintf("accepted-sockerr listener-closed-first=%v write=%v", closeListenerFirst, blockedWrite)
+	o.Count("extra:" + name)
+	viol := func(kind, detail string) {
+		o.Violate(hx.Violation{Kind: kind, Detail: name + ": " + detail, Replay: []string{"ServeConn over an in-memory conn; one datagram (PUSH sn 0) -> Accept -> Read it; a second Read blocks; " +
+			map[bool]string{true: "Listener.Close(); ", false: ""}[closeListenerFirst] + "the conn's ReadFrom returns an error; 1 s later the Read must have returned"}})
+	}
+	saved := kcp.SystemTimedSched
+	defer func() {
+		kcp.SystemTimedSched = saved
+		if r := recover(); r != nil {
+			viol("wait-sockerr-stuck", fmt.Sprint("bubble ended with: ", r))
+		}
+	}()
+	synctest.Test(t, func(t *testing.T) {
+		kcp.SystemTimedSched = &kcp.TimedSched{}
+		lc := newMem(3)
+		l, _ := kcp.ServeConn(nil, 0, 0, lc)
+		lc.ch <- dgram{seg(0x9001, kcp.IKCP_CMD_PUSH, 0, 0, []byte("hello")), &net.UDPAddr{IP: net.IPv4(10, 0, 1, 1), Port: 4001}}
+		synctest.Wait()
+		l.SetReadDeadline(time.Now().Add(time.Second))
+		s, err := l.AcceptKCP()
+		if err != nil {
+			viol("wait-accept-stuck", "Accept returned "+err.Error())
+			l.Close()
+			lc.Close()
+			return
+		}
+		buf := make([]byte, 16)
+		s.Read(buf)
+		var done atomic.Bool
+		go func() { s.Read(buf); done.Store(true) }()
+		synctest.Wait()
+		if closeListenerFirst {
+			l.Close()
+			synctest.Wait()
+		}
+		lc.ch <- dgram{nil, nil} // the socket fails
+		synctest.Wait()
+		time.Sleep(time.Second)
+		synctest.Wait()
+		if !done.Load() {
+			viol("wait-sockerr-stuck", "a Read blocked on the accepted session is still blocked 1 s after the listener's socket reported a read error")
+		}
+		s.Close()
+		l.Close()
+		lc.Close()
+		synctest.Wait()
+	})
+}
+
 // Run never returns: synctest needs a *testing.T, which a normal binary gets through
 // testing.Main, and testing.Main exits the process.  Results are written before that.
 func Run(o *hx.Out, g *hx.Rng, tier string) {
@@ -795,6 +851,8 @@ func Run(o *hx.Out, g *hx.Rng, tier string) {
 		for _, sc := range fixedSchedules() {
 			runSchedule(t, o, sc, async)
 		}
+		acceptedSocketError(t, o, false, false)
+		acceptedSocketError(t, o, true, false)
 		for i := 0; i < n; i++ {
 			runSchedule(t, o, genSchedule(g.Fork()), async)
 		}
